@@ -36,6 +36,8 @@ NaN  == RealS("nan")
 PInf == RealS("pinf")
 NInf == RealS("ninf")
 NZero == RealS("nzero")
+P63 == RealS("p63")        \* 2^63 exactly (one above i64::MAX)
+N63 == RealS("n63")        \* -2^63 exactly (= i64::MIN)
 BoolV(v)    == [t |-> "bool", v |-> v]
 TextV(s)    == [t |-> "text", s |-> s]
 ArrV(et, xs) == [t |-> "arr", et |-> et, xs |-> xs]
@@ -61,17 +63,20 @@ CmpIntSeq(a, b) ==
 \*   0 = -inf, 1 = near i64::MIN, 2 = ordinary (exact rational), 3 = near i64::MAX, 4 = +inf, 5 = NaN
 NumClass(v) ==
   IF v.t = "int" THEN (IF v.b = -1 THEN 1 ELSE IF v.b = 1 THEN 3 ELSE 2)
-  ELSE CASE v.c = "ninf" -> 0 [] v.c = "pinf" -> 4 [] v.c = "nan" -> 5 [] OTHER -> 2
+  ELSE CASE v.c = "ninf" -> 0 [] v.c = "pinf" -> 4 [] v.c = "nan" -> 5 [] v.c = "p63" -> 3 [] v.c = "n63" -> 1 [] OTHER -> 2
 
 \* numerator / denominator of an ordinary number (-0.0 counts as 0)
 NumN(v) == IF v.t = "int" THEN v.i ELSE IF v.c = "fin" THEN v.n ELSE 0
 NumD(v) == IF v.t = "int" THEN 1 ELSE IF v.c = "fin" THEN v.d ELSE 1
 
+\* offset of a number near an end of the 64-bit range: INT MAX + i / MIN + i, REAL 2^63 = MAX + 1, REAL -2^63 = MIN + 0
+EdgeOff(v) == IF v.t = "int" THEN v.i ELSE IF v.c = "p63" THEN 1 ELSE 0
+
 \* numeric comparison by value, NaN equal to itself and above everything (total)
 CmpNum(a, b) ==
   LET ca == NumClass(a)  cb == NumClass(b)
   IN IF ca # cb THEN CmpInt(ca, cb)
-     ELSE IF ca \in {1, 3} THEN CmpInt(a.i, b.i)
+     ELSE IF ca \in {1, 3} THEN CmpInt(EdgeOff(a), EdgeOff(b))
      ELSE IF ca = 2 THEN CmpInt(NumN(a) * NumD(b), NumN(b) * NumD(a))
      ELSE 0
 
@@ -110,6 +115,7 @@ RECURSIVE Canon(_)
 Canon(v) ==
   CASE v.t = "real" ->
          IF v.c = "nzero" THEN IntV(0)
+         ELSE IF v.c = "n63" THEN MinV(0)
          ELSE IF v.c = "fin" /\ v.n % v.d = 0 THEN IntV(v.n \div v.d)
          ELSE v
     [] v.t = "arr" -> ArrV(v.et, [i \in 1..Len(v.xs) |-> Canon(v.xs[i])])
